@@ -1967,10 +1967,10 @@ func (p *Parser) hasTrailingClosure() bool {
 			p.acceptSecond(token.PUBLIC_IDENTIFIER, token.PRIVATE_IDENTIFIER) && p.acceptThird(token.OR, token.COMMA, token.COLON)))
 }
 
-// beginlessRangeLiteral = ("..." | "<.<" | "<.." | "..<") constructorCall
+// beginlessRangeLiteral = ("..." | "<.<" | "<.." | "..<") unaryExpression
 func (p *Parser) beginlessRangeLiteral() ast.ExpressionNode {
 	op := p.advance()
-	right := p.constructorCall()
+	right := p.unaryExpression()
 	return ast.NewRangeLiteralNode(
 		op.Location().Join(right.Location()),
 		op,
